@@ -20,6 +20,19 @@ class Result:
         self.exhaustive = False
         self.notes = []
         self.traces_validated = 0
+        self.known = []               # occurrences of listed known findings (id, what)
+        self.prop = None
+
+    def add(self, f):
+        """record a finding unless it is an instance of a listed known finding"""
+        import kf
+        k = kf.match_known(kf.load_known_findings(), self.prop, f) if self.prop else None
+        if k is not None:
+            if k['id'] not in [x['id'] for x in self.known]:
+                self.known.append(k)
+            return False
+        self.findings.append(f)
+        return True
 
     def absorb(self, s):
         self.evaluations += s.stats['events']
@@ -215,7 +228,7 @@ def run_campaign(res, prop, plan, n_hist, seed, scope, observers=(), versions=(6
             if len(res.findings) >= max_findings:
                 break
             small = shrink_violation(events, version, hseed, v.prop, v.clause, observers)
-            res.findings.append({'kind': 'monitor', 'property': v.prop, 'clause': v.clause, 'detail': v.detail,
+            res.add({'kind': 'monitor', 'property': v.prop, 'clause': v.clause, 'detail': v.detail,
                                  'version': version, 'seed': hseed, 'events': [corr.ev_json(e) for e in small]})
             break
         if div is not None and len(res.findings) < max_findings:
@@ -224,7 +237,7 @@ def run_campaign(res, prop, plan, n_hist, seed, scope, observers=(), versions=(6
                 small = shrink_divergence(events, version, hseed, div.what, observers)
                 s2, d2 = replay_events(small, version, hseed, observers)
                 d2 = d2 or div
-                res.findings.append({'kind': 'divergence', 'verdict': verdict, 'what': d2.what, 'version': version,
+                res.add({'kind': 'divergence', 'verdict': verdict, 'what': d2.what, 'version': version,
                                      'seed': hseed, 'events': [corr.ev_json(e) for e in small],
                                      'impl': d2.impl_side, 'model': d2.model_side,
                                      'at': corr.ev_json(d2.event)})
